@@ -39,7 +39,19 @@ def results():
     out = {}
     for m in re.finditer(r"^test src/lib\.rs - (w\w+?)_(fail|twin) \(line \d+\)(?: - compile fail)? \.\.\. (\w+)", r.stdout, re.M):
         out["%s_%s" % (m.group(1), m.group(2))] = m.group(3)
-    res = dict(rc=r.returncode, tests=out, tail=(r.stdout + r.stderr)[-1500:] if not out else "")
+    # why a failed doctest failed: a compile_fail example that now COMPILES (the protection is gone) is a finding; one that fails with another
+    # error code than the expected one, or a twin that no longer compiles, means the item was renamed / moved (the witness text is stale)
+    why = {}
+    for m in re.finditer(r"^---- src/lib\.rs - (w\w+?)_(fail|twin) \(line \d+\) stdout ----\n(.*?)(?=^---- |^failures:|\Z)", r.stdout, re.M | re.S):
+        txt = m.group(3)
+        k = "%s_%s" % (m.group(1), m.group(2))
+        if "compiled successfully" in txt:
+            why[k] = "compiles"
+        elif "expected error codes were not found" in txt:
+            why[k] = "other-error"
+        else:
+            why[k] = "does-not-compile"
+    res = dict(rc=r.returncode, tests=out, why=why, tail=(r.stdout + r.stderr)[-1500:] if not out else "")
     # the lock file may need regenerating offline when the witness crate is new
     json.dump(res, open(cache, "w"))
     shutil.rmtree(d, ignore_errors=True)
@@ -51,12 +63,23 @@ def report(ctx, prop):
     if not ws:
         return
     res = results()
+    calibrated = engine.calibrated_tree()
     for w in ws:
         f, t = res["tests"].get(w + "_fail"), res["tests"].get(w + "_twin")
         rule = "%s.witness" % prop
+        wf = (res.get("why") or {}).get(w + "_fail")
         if f == "ok" and t == "ok":
             ctx.ok(rule, None, w.upper(), "compile_fail witness holds: " + WHAT[w])
         elif f is None and t is None:
-            ctx.finding(rule, None, w.upper(), "witness doctests did not run (rc=%s): %s" % (res.get("rc"), res.get("tail", "")[-400:]))
-        else:
+            if calibrated:
+                ctx.finding(rule, None, w.upper(), "witness doctests did not run (rc=%s): %s" % (res.get("rc"), res.get("tail", "")[-400:]))
+            else:
+                ctx.info(rule, None, w.upper(), "witness doctests did not run on this (non-calibrated) tree (rc=%s)" % res.get("rc"))
+        elif f != "ok" and wf == "compiles":
+            ctx.finding(rule, None, w.upper(), "the item the witness protects is reachable from outside the crate: the compile_fail example now compiles (%s)" % WHAT[w])
+        elif calibrated:
             ctx.finding(rule, None, w.upper(), "API-surface witness broken (fail-case: %s, twin: %s): %s" % (f, t, WHAT[w]))
+        else:
+            # the example fails with another error than the expected one / the twin does not compile: the named item was renamed or moved on
+            # this tree, the witness text (written for the commit in /verif/PINNED) does not apply; nothing is learnt about the property
+            ctx.info(rule, None, w.upper(), "witness not applicable on this tree (fail-case: %s [%s], twin: %s): the item it names was renamed or moved" % (f, wf, t))
